@@ -298,7 +298,10 @@ def run(args):
                 path = os.path.join(wt, s["file"])
                 orig = open(path, encoding="utf-8").read()
                 open(path, "w", encoding="utf-8").write(s["new_source"] + "\n")
-                for p in todo:
+                COST = dict(C06=1, C07=1, C18=1, C11=2, C09=2, C14=2, C20=2, C17=3, C04=3, C19=3, C15=4, C12=4, C08=5, C05=5, C02=6, C03=6, C01=6, C10=7, C16=8, C13=9)
+                for p in sorted(todo, key=lambda x: COST.get(x, 5)):
+                    if os.environ.get("AUTOMUT_ALL") != "1" and any(results.get("%s/%s" % (s["id"], q), {}).get("exit") == 1 for q in todo):
+                        break   # already reported by one check: enough for the measurement
                     t = time.time()
                     try:
                         r = sh(vcopy + "/check", p, "--tier", "quick", cwd=vcopy, timeout=1800, env=env)
